@@ -13,9 +13,9 @@ from lib import core, gendoc as G, oracle_html, drv as D
 ID = 'C03'
 EXT = D.EXT_CLI & ~D.EXT['SMART']
 SAFE = set(['emph', 'strong', 'code', 'link', 'image', 'esc', 'entity', 'break', 'quote', 'list', 'codeblock', 'rule', 'heading', 'table', 'deflist', 'footnote', 'math', 'supsub', 'autolink',
-            'figure', 'smart'])
+            'figure', 'smart', 'adjacent', 'tight-children'])
 # what plain Markdown (compatibility mode) knows
-COMPAT = set(['emph', 'strong', 'code', 'link', 'image', 'esc', 'entity', 'break', 'quote', 'list', 'codeblock', 'rule', 'heading', 'autolink', 'figure', 'indented-only'])
+COMPAT = set(['emph', 'strong', 'code', 'link', 'image', 'esc', 'entity', 'break', 'quote', 'list', 'codeblock', 'rule', 'heading', 'autolink', 'figure', 'indented-only', 'adjacent', 'tight-children'])
 # mode name -> (extensions, smart, compat, features)
 MODES = {
     'mmd': (EXT, False, False, SAFE),
@@ -49,6 +49,10 @@ def diff_class(exp, out, i):
     """name recognisable mechanisms behind a difference (stable key part), else None"""
     if leak_class(exp, out, i):
         return 'list-item-leading-space'
+    if exp[:i].endswith('<li>') and out[i:i + 3] == '<p>' and exp[i:i + 3] != '<p>':
+        return 'tight-list-rendered-loose'
+    if exp[:i].endswith('<li>') and exp[i:i + 3] == '<p>' and out[i:i + 3] != '<p>':
+        return 'loose-list-rendered-tight'
     if exp[i:].startswith(' title="') and out[i:i + 1] == '>':
         return 'link-title-dropped'
     if exp[i:i + 3] == '<p>' and exp[:i].endswith('<blockquote>\n') and out[i:i + 3] != '<p>':
@@ -88,7 +92,7 @@ def construct_at(doc, expected, pos):
 SPELLING_AXES = {
     'bullet': ['*', '+', '-'], 'lead': [0, 1, 2, 3], 'closing': [0, 1, 2, 5], 'setext': [False, True], 'eol': ['\n', '\r\n'], 'first_num': [1, 3, 7],
     'rule': ['***', '---', '* * *', '- - -', '___', '*****'], 'fence': [3, 4, 5], 'title_q': ['"', "'", '('], 'link_style': ['inline', 'ref', 'implicit'], 'emph': ['*', '_'],
-    'trailing_blank': [1, 2],
+    'trailing_blank': [1, 2], 'math': ['paren', 'dollar'],
 }
 
 
